@@ -96,6 +96,10 @@ class LibMixin:
     def call_ext(self, st, name, pos, kw, star, starkw, node):
         a = [self.concretize(st, x) for x in pos]
         short = name.split(".")[-1]
+        if name.startswith("pyrsistent."):
+            r_ = self.pyr_ext(st, name, a, kw)
+            if r_ is not None:
+                return r_
         if name in ("time.time",):
             self.assumptions.add("time.time() returns a float and never raises")
             return [Res(st, SV("float", self.fresh("now", I)))]
